@@ -31,14 +31,14 @@ func H02d() {
 	base := "https://n"
 	publicURL, _ := url.Parse(base)
 	vTag("subject")
-	subject := vString(vLen(1, vParam("subjlen", 2)))
+	subject := vString(vLen(1, vParam("d_subjlen", 2)))
 	for i := 0; i < len(subject); i++ {
 		vAssume(hC02SubjectByte(subject[i]))
 	}
 	serverURL := base + "/oauth2/" + subject // reference, written independently of url.JoinPath
-	slack := vParam("slack", 1)
+	slack := vParam("d_slack", 1)
 
-	naud := vLen(0, vParam("auds", 2))
+	naud := vLen(0, vParam("d_auds", 2))
 	var auds []string
 	for i := 0; i < naud; i++ {
 		vTag("aud")
